@@ -442,6 +442,13 @@ def registered_image_clause(model, rep, funcs):
                         ok = False
                     det += f"image = {norm_src(img_e) if img_e is not None else None}, molecules = {norm_src(mol) if mol is not None else None} (group loop yields {key}, {grp})"
                 break
+        if not ok:
+            # the same rule on the canonical form (temporaries and private one-expression helpers expanded)
+            MI = Matcher(f)
+            bi: dict = {}
+            if MI.has("for $key, $grp in $ldr.molecules.groupby(IMAGE_ID_LABEL):\n    ...", bi) and \
+                    MI.has("SubtomogramLoader($ldr._images[$key], $grp, ...)", bi):
+                ok, det = True, "per-group loader built from _images[key] and the group's molecules (canonical form)"
         if ok is None:
             # not the recognised loop: is a per-tomogram loader built from an image that was not looked up by the group's key?
             ctor_all = [c for c in calls_in(f) if dotted(c.func) == "SubtomogramLoader"]
@@ -462,6 +469,11 @@ def registered_image_clause(model, rep, funcs):
         sub = [n for n in walk_no_nested(f.node) if isinstance(n, ast.Subscript) and norm_src(n.value).endswith("_images")]
         ok = bool(flt) and bool(sub) and all(p in {x.id for x in ast.walk(c) if isinstance(x, ast.Name)} and "IMAGE_ID_LABEL" in norm_src(c) for c in flt) \
             and all(norm_src(s.slice) == p for s in sub)
+        if not ok:
+            MG_ = Matcher(f)
+            bg_: dict = {}
+            if MG_.has(f"SubtomogramLoader($ldr._images[{p}], $ldr.filter(pl.col(IMAGE_ID_LABEL) == {p}).molecules, ...)", bg_):
+                ok = bool(flt) and all(p in {x.id for x in ast.walk(c) if isinstance(x, ast.Name)} and "IMAGE_ID_LABEL" in norm_src(c) for c in flt)
         rep.ob("SAME", f.anchor, "loader i gets image i and exactly the molecules tagged i", ok,
                f"filter: {[norm_src(c) for c in flt]}, image lookup: {[norm_src(s) for s in sub]}", node=f.node, fn=f,
                clause="2 registered tomogram", stmt="def __getitem__")
